@@ -91,6 +91,36 @@ def compare_with_definition(bars, cps, scale):
     return None
 
 
+def compare_with_definition_np(bars, cps, scale):
+    """vectorised version of compare_with_definition for diagrams of ~100 bars"""
+    b = np.array([x[0] for x in bars], dtype=float)
+    d = np.array([x[1] for x in bars], dtype=float)
+    own = [float(p[0]) for depth in cps for p in depth]
+    cand = np.unique(np.concatenate([b, d, ((b[:, None] + d[None, :]) / 2.0).ravel(), np.array(own, dtype=float)]))
+    mids = (cand[1:] + cand[:-1]) / 2.0
+    span = max(1.0, float(cand[-1] - cand[0]))
+    T = np.unique(np.concatenate([cand, mids, [cand[0] - span, cand[-1] + span]]))
+    tents = np.maximum(0.0, np.minimum(T[None, :] - b[:, None], d[:, None] - T[None, :]))
+    truth = -np.sort(-tents, axis=0)
+    n = len(bars)
+    tol = 1e-9 * scale
+    for k in range(n):
+        if k < len(cps):
+            xs = np.array([p[0] for p in cps[k]], dtype=float)
+            ys = np.array([p[1] for p in cps[k]], dtype=float)
+            if np.all(np.diff(xs) > 0):
+                got = np.interp(T, xs, ys, left=0.0, right=0.0)
+            else:
+                got = np.array([L.pl_eval(cps[k], float(t)) for t in T])
+        else:
+            got = np.zeros_like(T)
+        bad = np.abs(got - truth[k]) > tol + 1e-9 * np.maximum(np.abs(got), np.abs(truth[k]))
+        if np.any(bad):
+            i = int(np.argmax(bad))
+            return "depth %d at t=%r: landscape gives %r, k-th largest tent is %r (returned depths: %d)" % (k + 1, float(T[i]), float(got[i]), float(truth[k][i]), len(cps))
+    return None
+
+
 def coord_scale(bars):
     return max([abs(x) for b in bars for x in b] + [1e-300])
 
